@@ -1,6 +1,6 @@
 ---------------------------- MODULE LifecycleMC ----------------------------
 (* Model-checking wrapper for Lifecycle.tla: two objects, two properties, a top-level *)
-(* scenario 1 with one sub-scenario 2, one behaviour, at most MaxOps run-time writes.  *)
+(* scenario 1, its sub-scenario 2 and 2's sub-scenario 3, one behaviour, at most MaxOps run-time writes.  *)
 EXTENDS Lifecycle
-ParentDef == (1 :> 0) @@ (2 :> 1)
+ParentDef == (1 :> 0) @@ (2 :> 1) @@ (3 :> 2)
 =============================================================================
